@@ -377,7 +377,7 @@ theorem omitted_rejected_strict (E : Ext) (env : Env) (perms : List String) (fl 
     (hf : f ∈ s.allAttrs) (ho : f.omitted = some c) (hc : ¬ c ∈ perms)
     (hk : (f.name, x) ∈ kvs) :
     decode E env perms true (.struct fl cls) (.obj kvs) = .error (.verr "unknown field") := by
-  rw [decode_struct_obj]
+  rw [decode_struct_obj_eq]
   exact finishStruct_unknown E env perms cls s kvs _ hs f.name x hk
     (name_not_in_fieldsFor s perms f c hnd hf ho hc) (not_startsWith_tag_of_not_startsWith_dot _ hdot)
 
